@@ -90,6 +90,8 @@ export function build(host, entries, mode, neighbours) {
     for (const m of models) attrs.push({ t: 'model', den: m.den, src: m.attrSrc });
   }
   if (neighbours === 'plainAfter') attrs.push(A.attr('pz', { k: 'str', raw: 'z' }));
+  if (neighbours === 'spreadAfter') { const s2 = b.global({ k: 'obj', v: { id: { k: 'str', v: 'sp2' }, title: { k: 'str', v: 'T' } } }); attrs.push(A.spread(b.leaf(s2), s2)); }
+  if (neighbours === 'listenerAfter') { const h = b.global({ k: 'fn', id: 'userListener' }); attrs.push(A.attr('onUpdate:modelValue', { k: 'leaf', i: b.leaf(h), src: h })); attrs.push(A.attr('class', { k: 'str', raw: 'after' })); }
   const el = { tag: h.tag, attrs, children: [], selfClose: true };
   b.addThunk('t0', renderElement(el));
   // flatten `models` for the interpreter
@@ -113,7 +115,7 @@ export function* generate({ tier, seed }) {
     };
   };
   // single v-model: full product
-  for (const host of HOSTS) for (const tk of TARGETS) for (const af of ARGS) for (const mf of MODS) for (const nb of ['none', 'plainBefore', 'spreadBefore', 'plainAfter']) {
+  for (const host of HOSTS) for (const tk of TARGETS) for (const af of ARGS) for (const mf of MODS) for (const nb of ['none', 'plainBefore', 'spreadBefore', 'plainAfter', 'spreadAfter']) {
     if (tier === 'quick' && nb !== 'none' && rng.bool(0.7)) continue;
     const g = emit(host, [[tk, af, mf]], 'single', nb, tier === 'quick' ? [rng.pick(OPTS), rng.pick(OPTS)] : OPTS);
     if (g) yield g;
@@ -128,7 +130,9 @@ export function* generate({ tier, seed }) {
     if (entries.filter((e) => e[1] === 'none').length > 1) continue;
     const host = rng.pick(['component', 'componentUnbound']);
     for (const mode of ['models', 'single']) {
-      const g = emit(host, entries, mode, rng.pick(['none', 'plainBefore', 'spreadBefore']), [rng.pick(OPTS)]);
+      const nb = rng.pick(['none', 'plainBefore', 'spreadBefore', 'plainAfter', 'spreadAfter', 'listenerAfter']);
+      // an explicit listener written after the model overrides it under last-wins semantics: only with mergeProps on
+      const g = emit(host, entries, mode, nb, [nb === 'listenerAfter' ? rng.pick(OPTS.filter((o) => o.mergeProps)) : rng.pick(OPTS)]);
       if (g) yield g;
     }
   }
@@ -169,7 +173,10 @@ export async function check(group, records) {
       for (let k = 0; k < models.length; k++) {
         const m = models[k];
         const key = `onUpdate:${m.name}`;
-        const listener = vnode.props && vnode.props[key];
+        const rawListener = vnode.props && vnode.props[key];
+        // a user listener written next to the model may have been merged in: fire the generated one(s)
+        const candidates = [].concat(rawListener ?? []).flat(Infinity).filter((f) => typeof f === 'function' && r.rt.idOf(f) === undefined);
+        const listener = candidates.length ? (x) => candidates.forEach((f) => f(x)) : null;
         if (typeof listener !== 'function') {
           return violated({ ...base, oracle: 'listener present', sig: `C05/listener-missing/${spec.isComp ? 'component' : 'element'}`, detail: { key, props: short(Object.keys(vnode.props || {})) } });
         }
